@@ -130,11 +130,18 @@ class AbstractContainer(abstract.GeomdlBase):
 
         :getter: Gets the evaluated points of all contained geometries
         """
-        if not self._cache['evalpts']:
+        # The cached points are only valid as long as they were collected from the evaluated points which the elements
+        # hold now (an element which has been edited or evaluated again since then holds a new list)
+        sources = self._cache.get('evalpts_src', [])
+        if not self._cache['evalpts'] or len(sources) != len(self._elements) or \
+                any(src is not elem._eval_points for src, elem in zip(sources, self._elements)):
+            all_evalpts = []
             for elem in self._elements:
                 elem.delta = self._delta[0] if self._pdim == 1 else self._delta
                 evalpts = elem.evalpts
-                self._cache['evalpts'] += evalpts
+                all_evalpts += evalpts
+            self._cache['evalpts'] = all_evalpts
+            self._cache['evalpts_src'] = [elem._eval_points for elem in self._elements]
         return self._cache['evalpts']
 
     @property
@@ -318,6 +325,7 @@ class AbstractContainer(abstract.GeomdlBase):
     def reset(self):
         """ Resets the cache. """
         self._cache['evalpts'] = []
+        self._cache['evalpts_src'] = []
 
     # Runs visualization component to render the surface
     @abc.abstractmethod
@@ -639,8 +647,8 @@ class SurfaceContainer(AbstractContainer):
 
         :getter: Gets the vertices
         """
-        if not self._cache['vertices']:
-            self.tessellate()
+        if not self._cache['vertices'] or not self._tessellation_is_current():
+            self.tessellate(**getattr(self, '_tsl_args', dict()))
         return self._cache['vertices']
 
     @property
@@ -651,9 +659,16 @@ class SurfaceContainer(AbstractContainer):
 
         :getter: Gets the faces
         """
-        if not self._cache['faces']:
-            self.tessellate()
+        if not self._cache['faces'] or not self._tessellation_is_current():
+            self.tessellate(**getattr(self, '_tsl_args', dict()))
         return self._cache['faces']
+
+    def _tessellation_is_current(self):
+        # The cached mesh was put together from the vertex lists which the tessellation components of the surfaces held at
+        # that time: a surface which has been edited or tessellated again since then holds a new list
+        sources = self._cache.get('tsl_src', [])
+        return len(sources) == len(self._elements) and \
+            all(src is getattr(elem._tsl_component, '_vertices', None) for src, elem in zip(sources, self._elements))
 
     def tessellate(self, **kwargs):
         """ Tessellates the surfaces inside the container.
@@ -694,7 +709,7 @@ class SurfaceContainer(AbstractContainer):
         tsl_args = dict((key, val) for key, val in kwargs.items() if key != 'force')
         tsl_args['delta'] = update_delta
         if all((self._cache['vertices'], self._cache['faces'])) and not force_tsl and \
-                tsl_args == getattr(self, '_tsl_args', tsl_args):
+                tsl_args == getattr(self, '_tsl_args', tsl_args) and self._tessellation_is_current():
             return
         new_elems = []
         if num_procs > 1:
@@ -739,6 +754,7 @@ class SurfaceContainer(AbstractContainer):
             f_offset += len(f)
         self._cache['vertices'] = verts
         self._cache['faces'] = faces
+        self._cache['tsl_src'] = [getattr(elem._tsl_component, '_vertices', None) for elem in self._elements]
         self._tsl_args = tsl_args  # remembered once the request has been served
 
     def reset(self):
@@ -746,6 +762,7 @@ class SurfaceContainer(AbstractContainer):
         super(SurfaceContainer, self).reset()
         self._cache['vertices'] = []
         self._cache['faces'] = []
+        self._cache['tsl_src'] = []
 
     def render(self, **kwargs):
         """ Renders the surfaces.
